@@ -3,6 +3,8 @@
 //
 //	setprobe set  <dir> <keyhex> <valhex>            fileStorage.Set
 //	setprobe save <dir> <namehex> <pubhex> <privhex> database.SaveEntity
+//	setprobe del  <dir> <keyhex>                     fileStorage.Delete
+//	setprobe delent <dir> <namehex>                  database.DeleteEntity
 //	setprobe cfg  <dir> <idhex> <versionhex> <hashhex>   the three consecutive Sets of Config.save (config.go)
 //	setprobe start <dir> <pin> <name> [lightbulb]    hc.NewIPTransport on the directory (one switch / lightbulb accessory), not started
 //	setprobe relstore <base> <rel> <keyhex> <valhex> chdir(base); NewFileStorage(rel); Set; chdir("/"); Get and list → stdout
@@ -89,6 +91,10 @@ func main() {
 		err = st.Set(string(unhex(a[0])), unhex(a[1]))
 	case os.Args[1] == "save" && len(a) == 3:
 		err = db.NewDatabaseWithStorage(st).SaveEntity(db.NewEntity(string(unhex(a[0])), unhex(a[1]), unhex(a[2])))
+	case os.Args[1] == "del" && len(a) == 1:
+		err = st.Delete(string(unhex(a[0])))
+	case os.Args[1] == "delent" && len(a) == 1:
+		db.NewDatabaseWithStorage(st).DeleteEntity(db.NewEntity(string(unhex(a[0])), nil, nil))
 	case os.Args[1] == "cfg" && len(a) == 3:
 		// Config.save is unexported; these are its three statements (config.go)
 		st.Set("uuid", unhex(a[0]))
